@@ -3,6 +3,8 @@
 # Applies the seeded change to /repo, runs the given checks, and undoes it straight afterwards.
 S="$1"; shift
 cd /verif
+# evidence files written while a seeded change is applied must not survive (they describe a mutated tree)
+rm -rf .cache/evidence_backup && cp -r evidence .cache/evidence_backup
 git -C /repo apply "$S/patch.diff" || { echo "patch does not apply"; exit 2; }
 for c in "$@"; do
   echo "--- ./check $c (seed $(basename $S))"
@@ -11,3 +13,4 @@ for c in "$@"; do
 done
 git -C /repo apply -R "$S/patch.diff" 2>/dev/null || git -C /repo checkout -- .
 git -C /repo status --short | head -3
+rm -rf evidence && mv .cache/evidence_backup evidence
